@@ -1,12 +1,15 @@
 import FluentProofs.SerializerOutShape5
 /-!
-# Serializer lemmas, part 22: the shape of `get_pattern`'s output for CRLF sources (C04)
+# Serializer lemmas, part 22: the shape of `get_pattern`'s output for arbitrary sources (C04)
 
-Generalisation of `SerializerOutShape1/2` from sources without `\r` to sources in which every `\r` is
-followed by `\n` (`NoLoneCR`).  A text slice that ends in front of `\r\n` leaves the cursor AT the `\n`
-with role `LineStart`; the next iteration pushes that `\n` as a blank-line element.  So the state
-machine allows a blank-line placeholder after a text that does not end with `\n` and after a placeable,
-and the role/cursor relation gets a "pending line feed" alternative.
+Generalisation of `SerializerOutShape1/2` from sources without `\r` to ALL sources (no hypothesis on `\r`;
+`NoLoneCR` is kept only because other files state their theorems with it).  A text slice that ends in
+front of `\r\n` leaves the cursor AT the `\n` with role `LineStart`; the next iteration pushes that `\n`
+as a blank-line element.  So the state machine allows a blank-line placeholder after a text that does
+not end with `\n` and after a placeable, and the role/cursor relation gets a "pending line feed"
+alternative.  A `\r` that is not followed by `\n` is an ordinary text byte: it may occur anywhere in a
+text (also as its first or last byte); what the slices guarantee is only that no `\r` INSIDE a text (or
+as its last byte) is directly followed by `\n` (`SliceC.nocrlf`, the last clause of `TextBytes`).
 -/
 namespace FluentProofs.Ser
 open FluentModel FluentModel.Syntax FluentModel.Syntax.Ser FluentProofs.Parser
@@ -43,9 +46,11 @@ theorem chkC_append (s : Src) (E : PSt) (l1 l2 : List Placeholder) :
 /-- the role and the cursor fit the last placeholder; "pending line feed": the cursor is at the `\n` of a `\r\n` -/
 def RoleOKC (s : Src) (E : PSt) (role : TextPos) (p : Nat) : Prop :=
   match E with
-  | .first .initialLineStart => role = .initialLineStart ∧ ∀ c, s[p]? = some c → c ≠ 32 ∧ c ≠ 10 ∧ c ≠ 13
+  | .first .initialLineStart =>
+    role = .initialLineStart ∧ ∀ c, s[p]? = some c → c ≠ 32 ∧ c ≠ 10 ∧ (c = 13 → s[p + 1]? ≠ some 10)
   | .first .lineStart =>
-    role = .lineStart ∧ s[skipBlankInline s p]? ≠ some 10 ∧ s[skipBlankInline s p]? ≠ some 13
+    role = .lineStart ∧ s[skipBlankInline s p]? ≠ some 10 ∧
+      (s[skipBlankInline s p]? = some 13 → s[skipBlankInline s p + 1]? ≠ some 10)
   | .first .continuation => False
   | .afterNl => role = .lineStart
   | .afterGhost => role = .continuation ∧ s[p]? = some 123
@@ -118,7 +123,7 @@ theorem text_pushC {s : Src} {r0 : TextPos} {st : PatState} {p : Nat} (hI : PInv
   cases he'
   exact push_pinvC hI e _ sv (pRoleOf term) q hok hci (fun h => hsv (by rw [hsv', h])) hrole
 
-/-! ## `get_text_slice` on a source without lone `\r` -/
+/-! ## `get_text_slice` (any source) -/
 
 /-- no `\r` in a range without line feed that is followed by a byte other than `\n` / the end of input -/
 theorem no13_of_clean {s : Src} (hcr : NoLoneCR s) {a b : Nat} (hcl : Clean s a b)
@@ -130,18 +135,29 @@ theorem no13_of_clean {s : Src} (hcr : NoLoneCR s) {a b : Nat} (hcl : Clean s a 
   · have : j + 1 = b := by omega
     rw [this] at h10; exact hend h10
 
+/-- no byte of a range without line feed that is followed by a byte other than `\n` is followed by `\n` -/
+theorem nonl_next_of_clean {s : Src} {a b : Nat} (hcl : Clean s a b)
+    (hend : s[b]? ≠ some 10) : ∀ j, a ≤ j → j < b → s[j + 1]? ≠ some 10 := by
+  intro j j1 j2
+  by_cases hj : j + 1 < b
+  · exact (hcl (j + 1) (by omega) hj).1
+  · have : j + 1 = b := by omega
+    rw [this]; exact hend
+
 structure SliceC (s : Src) (p1 stop : Nat) (nb : Bool) (term : Termination) (q : Nat) : Prop where
   le : p1 ≤ stop
   sz : stop ≤ s.size
-  nobrace : ∀ j, p1 ≤ j → j < stop → s[j]? ≠ some 123 ∧ s[j]? ≠ some 125 ∧ s[j]? ≠ some 13
+  nobrace : ∀ j, p1 ≤ j → j < stop → s[j]? ≠ some 123 ∧ s[j]? ≠ some 125
   nonl : ∀ j, p1 ≤ j → j + 1 < stop → s[j]? ≠ some 10
+  /-- a `\r` of the text (also its last byte) is not followed by `\n` -/
+  nocrlf : ∀ j, p1 ≤ j → j < stop → s[j]? = some 13 → s[j + 1]? ≠ some 10
   lf : term = .lineFeed → p1 < stop ∧ s[stop - 1]? = some 10 ∧ q = stop ∧ nb = nonBlank s p1 (stop - 1)
   pl : term = .placeableStart → s[stop]? = some 123 ∧ q = stop ∧ nb = nonBlank s p1 stop ∧ (p1 < stop → s[stop - 1]? ≠ some 10)
   eof : term = .eof → stop = s.size ∧ q = s.size ∧ nb = nonBlank s p1 stop ∧ (p1 < stop → s[stop - 1]? ≠ some 10)
   crlf : term = .crlf → s[stop]? = some 13 ∧ s[stop + 1]? = some 10 ∧ q = stop + 1 ∧ nb = nonBlank s p1 stop ∧
     (p1 < stop → s[stop - 1]? ≠ some 10)
 
-theorem sliceC {s : Src} (hcr : NoLoneCR s) {p1 start stop : Nat} {nb : Bool} {term : Termination} {q : Nat}
+theorem sliceC {s : Src} {p1 start stop : Nat} {nb : Bool} {term : Termination} {q : Nat}
     (hp : p1 ≤ s.size) (h : getTextSlice s p1 = .ok (start, stop, nb, term) q) :
     start = p1 ∧ SliceC s p1 stop nb term q := by
   unfold getTextSlice at h
@@ -153,11 +169,12 @@ theorem sliceC {s : Src} (hcr : NoLoneCR s) {p1 start stop : Nat} {nb : Bool} {t
     obtain ⟨⟨hs, hst, hnb, ht⟩, hq⟩ := h
     subst hs hst hnb ht hq
     have hcl := memchr3_clean_none hm hp
-    have hn13 := no13_of_clean hcr hcl (by simp)
+    have hnn := nonl_next_of_clean hcl (by simp)
     exact ⟨rfl, {
       le := hp, sz := Nat.le_refl _
-      nobrace := fun j j1 j2 => ⟨(hcl j j1 j2).2.1, (hcl j j1 j2).2.2, hn13 j j1 j2⟩
+      nobrace := fun j j1 j2 => ⟨(hcl j j1 j2).2.1, (hcl j j1 j2).2.2⟩
       nonl := fun j j1 j2 => (hcl j j1 (by omega)).1
+      nocrlf := fun j j1 j2 _ => hnn j j1 j2
       lf := fun h => by cases h
       pl := fun h => by cases h
       eof := fun _ => ⟨rfl, rfl, rfl, fun hlt => (hcl (s.size - 1) (by omega) (by omega)).1⟩
@@ -177,11 +194,12 @@ theorem sliceC {s : Src} (hcr : NoLoneCR s) {p1 start stop : Nat} {nb : Bool} {t
         obtain ⟨⟨hs, hst, hnb, ht⟩, hq⟩ := h
         subst hs hst hnb ht hq
         have hcl' : Clean s p1 (e - 1) := fun j j1 j2 => hcl j j1 (by omega)
-        have hn13 := no13_of_clean hcr hcl' (by rw [h13]; simp)
+        have hnn := nonl_next_of_clean hcl' (by rw [h13]; simp)
         exact ⟨rfl, {
           le := by omega, sz := by omega
-          nobrace := fun j j1 j2 => ⟨(hcl j j1 (by omega)).2.1, (hcl j j1 (by omega)).2.2, hn13 j j1 j2⟩
+          nobrace := fun j j1 j2 => ⟨(hcl j j1 (by omega)).2.1, (hcl j j1 (by omega)).2.2⟩
           nonl := fun j j1 j2 => (hcl j j1 (by omega)).1
+          nocrlf := fun j j1 j2 _ => hnn j j1 j2
           lf := fun h => by cases h
           pl := fun h => by cases h
           eof := fun h => by cases h
@@ -191,22 +209,24 @@ theorem sliceC {s : Src} (hcr : NoLoneCR s) {p1 start stop : Nat} {nb : Bool} {t
         simp only [R.ok.injEq, Prod.mk.injEq] at h
         obtain ⟨⟨hs, hst, hnb, ht⟩, hq⟩ := h
         subst hs hst hnb ht hq
-        have hn13 : ∀ j, p1 ≤ j → j < e → s[j]? ≠ some 13 := by
-          intro j j1 j2 h13
-          have h10' := hcr j h13
-          by_cases hj : j + 1 < e
-          · exact (hcl (j + 1) (by omega) hj).1 h10'
-          · have hje : j = e - 1 := by omega
-            exact hc ⟨by omega, by rw [← hje, h13]; rfl⟩
         exact ⟨rfl, {
           le := by omega, sz := by omega
           nobrace := by
             intro j j1 j2
             by_cases hj : j < e
-            · exact ⟨(hcl j j1 hj).2.1, (hcl j j1 hj).2.2, hn13 j j1 hj⟩
+            · exact ⟨(hcl j j1 hj).2.1, (hcl j j1 hj).2.2⟩
             · have : j = e := by omega
-              subst this; rw [h10]; exact ⟨by decide, by decide, by decide⟩
+              subst this; rw [h10]; exact ⟨by decide, by decide⟩
           nonl := fun j j1 j2 => (hcl j j1 (by omega)).1
+          nocrlf := by
+            intro j j1 j2 h13
+            by_cases hj : j + 1 < e
+            · exact (hcl (j + 1) (by omega) hj).1
+            · exfalso
+              by_cases hje : j = e
+              · subst hje; rw [h10] at h13; cases h13
+              · have hje' : j = e - 1 := by omega
+                exact hc ⟨by omega, by rw [← hje', h13]; rfl⟩
           lf := fun _ => ⟨by omega, by simpa using h10, rfl, by simp⟩
           pl := fun h => by cases h
           eof := fun h => by cases h
@@ -216,11 +236,12 @@ theorem sliceC {s : Src} (hcr : NoLoneCR s) {p1 start stop : Nat} {nb : Bool} {t
       simp only [R.ok.injEq, Prod.mk.injEq] at h
       obtain ⟨⟨hs, hst, hnb, ht⟩, hq⟩ := h
       subst hs hst hnb ht hq
-      have hn13 := no13_of_clean hcr hcl (by rw [h123]; simp)
+      have hnn := nonl_next_of_clean hcl (by rw [h123]; simp)
       exact ⟨rfl, {
         le := hpe, sz := by omega
-        nobrace := fun j j1 j2 => ⟨(hcl j j1 j2).2.1, (hcl j j1 j2).2.2, hn13 j j1 j2⟩
+        nobrace := fun j j1 j2 => ⟨(hcl j j1 j2).2.1, (hcl j j1 j2).2.2⟩
         nonl := fun j j1 j2 => (hcl j j1 (by omega)).1
+        nocrlf := fun j j1 j2 _ => hnn j j1 j2
         lf := fun h => by cases h
         pl := fun _ => ⟨h123, rfl, rfl, fun hl => (hcl (e - 1) (by omega) (by omega)).1⟩
         eof := fun h => by cases h
